@@ -487,6 +487,15 @@ def maxabs(x):
     return float(np.max(np.abs(x))) if x.size else 0.0
 
 
+def cond_scale(psi):
+    """|factor| * prod_n |A_n|_F (central block included).  Rounding errors of contractions are proportional to the norms of
+    the tensors, which for a non-canonical chain can exceed the norm of the state they represent by orders of magnitude."""
+    out = abs(psi.factor)
+    for t in psi.A.values():
+        out *= float(t.norm())
+    return float(out)
+
+
 def observe(ctx, psi, loc, what, scale=None, full=True, ctol=2e3):
     """Primary observation (a), cross-validated in-run against (b) and (c).  Violations are reported under
     ``observation:*`` keys; the value returned is (a)."""
@@ -494,7 +503,7 @@ def observe(ctx, psi, loc, what, scale=None, full=True, ctol=2e3):
     ctx.count("obs_tensor")
     if not full:
         return a
-    sc = max(scale if scale is not None else 0.0, nrm(a), 1e-300)
+    sc = max(scale if scale is not None else 0.0, nrm(a), cond_scale(psi), 1e-300)
     pC = getattr(psi, "pC", None)
     if pC is None:
         b, bad = obs_sites(psi, loc)
